@@ -316,6 +316,16 @@ def mode_build():
         n, ops = gen_circuit(rng, kc, nmax)
         nterms = 1 if rng.random() < 0.6 else rng.randint(2, 3)
         terms = [[1.0 if nterms == 1 else float(Fr(rng.randint(-8, 8) or 3, 4)), rand_word(rng, n)] for _ in range(nterms)]
+        if ci == 0:
+            # fixed corpus: one wire cut twice, re-entering the fragment it left (the fragment tape has to chain its wire
+            # bookkeeping: original wire -> fresh wire after the first measurement -> ... )
+            import math as _m
+            A1, A2 = 2 * _m.atan2(4, 3), 2 * _m.atan2(3, 4)
+            n = 5      # two spare device wires: the re-entering fragment needs a fresh wire per cut
+            ops = [["RX", [A1], [0]], ["RY", [A2], [1]], ["RX", [A2], [2]], ["CNOT", [], [0, 1]], ["WireCut", [], [1]],
+                   ["CRY", [A1], [1, 2]], ["WireCut", [], [1]], ["RY", [A2], [0]], ["CNOT", [], [0, 1]], ["WireCut", [], [1]],
+                   ["CRX", [-A2], [1, 2]], ["WireCut", [], [1]], ["RX", [A1], [1]], ["CNOT", [], [1, 0]]]
+            terms = [[1.0, [[0, "Z"], [1, "Z"], [2, "X"]]]]
         case = {"n": n, "ops": ops, "terms": terms, "exact": ci < req["nexact"], "status": "ok"}
         cases.append(case)
         try:
